@@ -390,6 +390,13 @@ impl Env {
         self.unlocked
     }
 
+    /// Reports whether this process is the helper `redo-ifchange` that
+    /// `redo-unlocked` starts to rebuild dependencies out of band.
+    #[inline]
+    pub fn is_oob_helper(&self) -> bool {
+        self.no_oob
+    }
+
     /// If file locking is broken, update the environment accordingly.
     pub(crate) fn mark_locks_broken(&mut self) {
         env::set_var(ENV_LOCKS_BROKEN, "1");
